@@ -57,6 +57,12 @@ func StepRec(s operator.OpStep) trace.Ev {
 		a, b := pairs(x.PromoteLearners, x.DemoteVoters)
 		return trace.Ev{"k": "Leave", "promotes": a, "demotes": b}
 	}
+	switch x := s.(type) {
+	case operator.MergeRegion:
+		return trace.Ev{"k": "Merge", "passive": x.IsPassive}
+	case operator.SplitRegion:
+		return trace.Ev{"k": "Split", "keys": []string{string(x.StartKey), string(x.EndKey)}}
+	}
 	return trace.Ev{"k": "Other", "text": s.String()}
 }
 
